@@ -90,6 +90,13 @@ def run_regularisers(ctx: Ctx) -> None:
             bad = all_equal(el, want_e)
             if bad:
                 return False, f"elasticity_loss on an affine field: {bad}"
+            # boundary materials: a vanishing first (lambda = 0) resp. second (mu = 0) Lame parameter drops exactly that term
+            for l0, m0, what in ((0, mu, "lambda = 0"), (lam, 0, "mu = 0"), (0, Fraction(3, 2), "lambda = 0, mu = 3/2")):
+                el0 = it.call(fns["elasticity_loss"], u, first_parameter=l0, second_parameter=m0, mode=mode, spacing=sp, reduction="none")
+                want0 = to_rat(l0) / 2 * tr ** 2 + to_rat(m0) / 4 * sum(((A[j][k] + A[k][j]) ** 2 for j in range(D) for k in range(D)), Rat.of(0))
+                bad = all_equal(el0, want0)
+                if bad:
+                    return False, f"elasticity_loss with {what} on an affine field: {bad}"
             return True, ""
         _guard(ctx, "T17.values", f"D={D}", fns["bending_loss"], f"D={D} analytic values", th_values)
 
